@@ -5,10 +5,13 @@
    dataclass_hide_default.py by harness/translate_src.py on every run, so the Example below is re-checked
    against what the code says now.  (Repeatability and independence of call history hold trivially in the
    functional model - Model/Json.v, Model/CodeData.v have no state - and are therefore decided by the
-   history correspondence and the snapshot oracle of the check, not by a theorem.) *)
+   history correspondence and the snapshot oracle of the check, not by a theorem.)
+   Third clause (no shared mutable state in returned values): Model/FreshDoc.v abstracts a function to the
+   expressions it can return; Gen/SrcFresh.v is that abstraction of value_to_json, code_data_to_json and
+   normalize, re-translated from the source on every run; Proofs/FreshProofs.v proves the check sound. *)
 From Coq Require Import List Bool Arith.
 Import ListNotations.
-From PCD Require Import Model.HeapOps Proofs.HeapSound Gen.SrcHeap.
+From PCD Require Import Model.HeapOps Proofs.HeapSound Gen.SrcHeap Model.FreshDoc Proofs.FreshProofs Gen.SrcFresh.
 
 (* a function accepted by the static check never modifies an object that existed before the call:
    whatever the heap, the bindings of its parameters, and the path taken through branches and loops *)
@@ -30,3 +33,35 @@ Proof. vm_compute. reflexivity. Qed.
 Example C12_check_rejects_write_through_input :
   safe [0] [HFresh 0; HGet 2 2; HMutate 2] = false /\ safe [0] [HFresh 0; HFresh 2; HMutate 2; HMutate 0] = true.
 Proof. vm_compute. split; reflexivity. Qed.
+
+(* a function whose returnable expressions contain no module-level / closure / default-argument object
+   returns values all of whose containers were allocated by the call or are containers of its argument -
+   whatever the globals hold, however often comprehensions iterate, through any depth of recursive calls *)
+Theorem C12_accepted_functions_return_fresh_or_argument_containers :
+  forall (P : prog) bound genv, prog_ok P = true ->
+  forall arg e v, eval P bound genv arg e v -> no_global e = true ->
+  forall a, In a (addrs v) -> bound <= a \/ In a (addrs arg).
+Proof. exact fresh_sound. Qed.
+Print Assumptions C12_accepted_functions_return_fresh_or_argument_containers.
+
+(* to_json_data / normalize on frozen CodeData (no container in the argument: C08): every dict, list and
+   object of the result is new - mutating a returned document cannot reach the CodeData, a later call's
+   document or any other object *)
+Theorem C12_documents_are_made_of_new_containers : forall (P : prog) bound genv f body e arg v,
+  prog_ok P = true ->
+  nth_error P f = Some body -> In e body ->
+  addrs arg = [] ->
+  eval P bound genv arg e v ->
+  forall a, In a (addrs v) -> bound <= a.
+Proof. exact fresh_document. Qed.
+Print Assumptions C12_documents_are_made_of_new_containers.
+
+(* value_to_json, code_data_to_json and normalize, as translated from the current source, are accepted *)
+Example C12_to_json_and_normalize_are_accepted : prog_ok fresh_prog = true.
+Proof. vm_compute. reflexivity. Qed.
+
+(* non-vacuity: a function that can return a module-level dict is rejected, and can leak it *)
+Example C12_check_rejects_returning_a_global :
+  prog_ok [[FChoice (FNew [FImm]) FGlobal]] = false
+  /\ eval [[FGlobal]] 10 [VCon 3 []] VImm FGlobal (VCon 3 []).
+Proof. split; [reflexivity|]. apply EGlobal with (g := VCon 3 []); [now left|apply SubRefl]. Qed.
